@@ -117,3 +117,47 @@ end Prophy.C20
 #print axioms Prophy.C20.C20_write_files_ok_content
 #print axioms Prophy.C20.C20_write_files_failure_leaves_nothing
 #print axioms Prophy.C20.C20_write_files_open_failure_restores
+
+/-! ### a repeated run (P32) -/
+namespace Prophy.C20
+open Prophy.FilesW
+
+/-- running prophyc again on the same inputs, whatever order they are given in the second time, ends the same way and leaves
+every file as the first run left it - after a success and after a failure of either phase -/
+theorem C20_write_files_repeatable (full : Ident → Bool) (fs : FS) (ts₁ ts₂ : List Target) (h : ts₁.Perm ts₂) :
+    (writeFiles full (writeFiles full fs ts₁).fs ts₂).ok = (writeFiles full fs ts₁).ok ∧
+    ∀ i, (writeFiles full (writeFiles full fs ts₁).fs ts₂).fs i = (writeFiles full fs ts₁).fs i :=
+  writeFiles_repeat_fw full fs ts₁ ts₂ h
+
+/-! non-vacuity: the second run is given the targets in the other order -/
+
+/-- after a success: file 1 was created by the first run (it exists now, the second run does not create it), file 2 existed;
+the second run succeeds and both hold their text again, 3 is untouched -/
+example :
+    observe (fun _ => false)
+      (writeFiles (fun _ => false) (fun i => if i = 2 then some [7] else if i = 3 then some [9] else none)
+        [⟨some 1, [65]⟩, ⟨some 2, [66]⟩]).fs
+      [⟨some 2, [66]⟩, ⟨some 1, [65]⟩] [1, 2, 3] = (true, [some [65], some [66], some [9]]) ∧
+    observe (fun _ => false) (fun i => if i = 2 then some [7] else if i = 3 then some [9] else none)
+      [⟨some 1, [65]⟩, ⟨some 2, [66]⟩] [1, 2, 3] = (true, [some [65], some [66], some [9]]) := by decide
+
+/-- after a phase-2 failure (`full 2`): the first run removed the file 1 it had created and emptied 2; the second run creates 1
+again, fails again, removes 1 again and leaves 2 empty, 3 is untouched -/
+example :
+    observe (fun i => i == 2)
+      (writeFiles (fun i => i == 2) (fun i => if i = 2 then some [7] else if i = 3 then some [9] else none)
+        [⟨some 1, [65]⟩, ⟨some 2, [66]⟩]).fs
+      [⟨some 2, [66]⟩, ⟨some 1, [65]⟩] [1, 2, 3] = (false, [none, some [], some [9]]) ∧
+    observe (fun i => i == 2) (fun i => if i = 2 then some [7] else if i = 3 then some [9] else none)
+      [⟨some 1, [65]⟩, ⟨some 2, [66]⟩] [1, 2, 3] = (false, [none, some [], some [9]]) := by decide
+
+/-- after a phase-1 failure (a target that cannot be opened): nothing changed, the second run fails the same way -/
+example :
+    observe (fun _ => false)
+      (writeFiles (fun _ => false) (fun i => if i = 2 then some [7] else none)
+        [⟨some 1, [65]⟩, ⟨none, [66]⟩, ⟨some 2, [67]⟩]).fs
+      [⟨some 2, [67]⟩, ⟨some 1, [65]⟩, ⟨none, [66]⟩] [1, 2] = (false, [none, some [7]]) := by decide
+
+end Prophy.C20
+
+#print axioms Prophy.C20.C20_write_files_repeatable
